@@ -21,7 +21,13 @@ coordinates rounded to doubles for the implementation), reflection sign flip, re
 degrees = radians * 180/pi, agreement of row-wise / matrix / index-based / Molecule.measure forms,
 brute-force bond list, relabelling equivariance; and the `layout` stream: the same point values delivered as views of ONE
 coordinate buffer (overlapping / identical / interleaved / reversed slices, the same object twice, row views, Fortran / column-sliced /
-strided / negatively strided / read-only carriers) must give the textbook values and the values obtained from independent copies.
+strided / negatively strided / read-only carriers) must give the textbook values and the values obtained from independent copies;
+and the `seq` stream: the answers depend on the ARGUMENTS only, not on what the process did before — sequences of 30-60 public calls, each
+sequence in its own fresh interpreter (harness/c18_worker.py), mixing radius / periodic-table look-ups with the caller's own missing= /
+units= / return_tuple= / spelling, guess_connectivity and the measurement functions with other options, returned objects edited by the
+caller, argument objects overwritten in place and handed in again; every guess_connectivity / measurement call in a sequence is judged
+against the textbook value of its arguments, the bond criterion with radii read from the data file by ast (never from the live table
+object), and the arguments are compared with their pre-call snapshot.
 """
 from __future__ import annotations
 
@@ -116,6 +122,10 @@ TRUSTED_BASE = [
     "covalent radii: REGENERATED FROM SOURCE — tools/gen_radii.py and tools/gen_periodic.py (C17's / C01's translators, used read-only) re-encode qcelemental/data/alvarez_2008_covalent_radii.py and nist_2011_atomic_weights.py on every run; "
     "C17's model of CovalentRadii.get (Model/Radii.lean, its own correspondence is C17's check) and Model/MeasureRadii.lean turn a symbol into the radius; every radius the run touches is compared exactly (as rationals of doubles) with what the implementation's covalentradii returns, and the bond list from symbols is compared exactly with guess_connectivity",
     "the unit factor angstrom -> bohr (constants.conversion_factor: pint, C03's territory) is a PARAMETER: it is read once from the implementation and handed to the model; the fallback 1.8 bohr for unknown / radius-less symbols is modelled as coded (connectivity.py:39,41)",
+    "seq stream: the expected radii are factor * float(Decimal(text)) of the rows of qcelemental/data/alvarez_2008_covalent_radii.py read by ast (largest value where an element has several labelled rows, "
+    "1.8 bohr where it has none — connectivity.py:39,41), the element of a nuclide / oddly cased label taken from periodictable.to_E in the harness process (C01's territory, a parameter) and the "
+    "angstrom -> bohr factor from constants (C03's, a parameter); they are compared exactly with the radius model on the regenerated tables (RAD line) and with covalentradii.get(s, missing=1.8) in the harness process",
+    "harness/c18_worker.py (executes a sequence in a fresh interpreter and snapshots arguments / results; judges nothing)",
     "harness/c18.py generators and the Python oracle",
 ]
 ASSUMPTIONS = [
@@ -128,6 +138,9 @@ ASSUMPTIONS = [
     "batched inputs have >= 1 row; mixed scalar/batched shapes follow numpy broadcasting (rows 1 vs n)",
     "layout stream: arguments are float64 ndarrays (any strides, possibly aliasing each other, possibly read-only) or nested lists; distance_matrix entries between "
     "two views of the very same buffer row (coincident points, outside the quantifier) are compared with the model only, never demanded by the oracle",
+    "seq stream: the history consists of calls to the public API only (covalentradii.get / vdwradii.get / periodictable.to_* with any options, including calls that end in the documented exceptions; guess_connectivity; "
+    "compute_distance / compute_angle / compute_dihedral / distance_matrix / measure_coordinates / Molecule.measure) and of the caller editing objects it owns (lists / arrays it received, its own argument objects); "
+    "nobody writes to the tables' attributes (covalentradii.cr etc.); distance_matrix receives ndarrays only (documented signature); a sequence lives in one single-threaded process",
 ]
 RULE = (
     "tasks = geom (4 points in [-10,10]^3 from 6 point styles x exact rational motion (integer quaternion, optional Householder reflection, rational "
@@ -144,6 +157,15 @@ RULE = (
     "probe (conn tasks of 2-4 atoms in a chain whose consecutive pairs sit 4e-9 .. 1e-4 bohr inside or outside their cutoff (ri+rj)*thr, symbols over the whole table, "
     "radius-less / unknown symbols, exact table labels (C_sp3, Mn_lowspin, ...), nuclide labels and odd letter case: pins the radius the implementation really uses for each symbol to ~1e-9). "
     "Every conn / probe / layout-conn task is additionally evaluated by the second driver from the symbols with radii from the regenerated tables, and every distinct symbol's table radius is compared exactly with the implementation's. "
+    "seq (call sequences: the value of a call depends on its arguments only, not on the history of the process. 64 (quick) / 400 (thorough) sequences of 30-60 steps, EACH IN ITS OWN FRESH INTERPRETER so that the harness's own "
+    "uniform use of the tables cannot pre-set any state; a cast of 2-4 labels without tabulated radius (Z >= 97 in three letter cases, unknown strings, nuclides of such elements) and 3-5 with one (elements in three cases, exact table labels, "
+    "generic C/Mn/Fe/Co, nuclides); steps: covalentradii.get(label | other case | atomic number | element, missing in {absent, 0, 0.5, 1, 1.8, 2.5, 4, 10}, units in {absent, bohr, angstrom, pm, nm}, return_tuple in {absent, False, True}), "
+    "vdwradii.get likewise, periodictable.to_E/to_Z/to_mass/to_A/to_name; guess_connectivity on 2-5 atom chains of the cast whose consecutive pairs sit 1e-6 .. 0.8 bohr inside / outside the cutoff of the TABLE radii, symbols as list / tuple / object array, "
+    "geometry as (n,3) / flat / Fortran array / nested list, 9 thresholds + random + default, default_connectivity; the same molecule again with other options on fresh objects or on the very objects of the earlier call; the caller clearing / appending to / "
+    "reversing / popping a list (array) returned earlier and asking again; the caller overwriting its geometry (and symbols) objects in place and handing the same objects in again; compute_distance / angle / dihedral (1-3 rows, row / list / array forms), "
+    "distance_matrix, measure_coordinates, Molecule.measure, repeated on the same objects with the other degrees flag. Every guess_connectivity / measurement step is judged: exact bond set from the data-file radii, textbook values at 1e-9, "
+    "arguments equal to their pre-call snapshot, lists / arrays returned by earlier steps still equal to what was returned unless the caller edited them; every guess_connectivity step is also compared with both drivers. A failing sequence is cut after the failing call and ddmin-shrunk over its history (each trial a fresh interpreter). "
+    "In-process conn tasks additionally check that the geometry / symbols objects are unchanged by the call and that covalentradii.get(s, missing=1.8) equals the data-file radius.) "
     "A case is distinct by its full input; non-trivial when points are in general position (no coordinate plane symmetry) or an error/bond "
     "branch is hit, and for layout cases when arguments share memory or the carrier is not a fresh writable C array."
 )
@@ -154,7 +176,9 @@ LEVEL_TEXT = (
     "modulo 2 pi everywhere), to be unchanged by listing the points backwards and to equal the textbook definitions (arccos of the normalised dot product; the unique "
     "angle in (-pi, pi] with the IUPAC cosine and sine) for non-degenerate inputs. Partial because: the model is tied to the code by sampled correspondence; libm / IEEE "
     "rounding of sqrt / arccos / arctan2 / degrees and of the float arithmetic in front of them is run-time only (differential, 1e-9); signed zero and nan are outside the real model. "
-    "Covalent radii are no longer taken from the implementation: they are regenerated from the source data files and checked against the implementation exactly."
+    "Covalent radii are no longer taken from the implementation: they are regenerated from the source data files and checked against the implementation exactly. "
+    "The model is a pure function of the arguments; that the implementation is one too (no dependence on earlier calls in the process, on objects handed out earlier, on argument objects being reused) is sampled only: "
+    "call sequences in fresh interpreters, judged against values computed from the arguments alone."
 )
 TECHNIQUE = "Lean 4 proof over generic commutative rings / ordered fields, lifted over R through Mathlib's sqrt / arccos / arg + exact-rational differential correspondence + regenerated radius tables"
 
@@ -822,10 +846,21 @@ def conn_check(t, model, out: Outcome, model2=None):
         kw["default_connectivity"] = dc
     if t.get("default_thr"):
         kw.pop("threshold")
-    r = call(gc, syms, np.array(Gf).ravel() if t.get("flat") else np.array(Gf), **kw)
+    garr = np.array(Gf).ravel() if t.get("flat") else np.array(Gf)
+    gkeep, skeep = garr.copy(), list(syms)
+    r = call(gc, syms, garr, **kw)
     if r[0] != "ok":
         V(out, "oracle:connectivity_raises", t, f"guess_connectivity raised {r[1]}", observed=r[1])
         return
+    # --- oracle: the caller's coordinates / symbols are what they were (a later measurement on them must still be of the supplied points)
+    if garr.shape != gkeep.shape or not (garr == gkeep).all() or list(syms) != skeep:
+        V(out, "oracle:argument_mutated", t, "guess_connectivity changed the geometry / symbols object it was given", observed=repr(garr.tolist())[:200], expected=repr(gkeep.tolist())[:200])
+    # --- oracle: the radii of the criterion are the tabulated covalent radii (data file read by ast; 1.8 bohr where there is none)
+    for x in sorted(set(syms)):
+        if F(radius_of(x)) != F(table_radius(x)):
+            V(out, "oracle:connectivity_radius", t, f"covalent radius of {x!r} in bohr: covalentradii.get(s, missing=1.8) differs from factor * float(tabulated decimal) of qcelemental/data/alvarez_2008_covalent_radii.py",
+              observed=radius_of(x), expected=table_radius(x))
+            break
     res = list(r[1])
     pairs = [(int(x[0]), int(x[1])) for x in res]
     exp = brute_bonds(radii, P, thr)
@@ -1185,15 +1220,362 @@ def layout_check(t, model, out: Outcome, model2=None):
         MM(out, t, f"guess_connectivity vs the model from symbols with the regenerated table radii {how}", observed=canon_conn(res, c["dc"])[:300], expected=model2[0][:300])
 
 
+# ---- call sequences ---------------------------------------------------------------------
+# Every other stream asks each question of a process whose only earlier use of the library is the harness's own, uniform one
+# (covalentradii.get(s, missing=1.8) from `radius_of`, guess_connectivity with fresh arrays).  The property quantifies over the
+# *arguments* only: the answer may not depend on what the process did with the public API before.  A `seq` task is one sequence of
+# 30-60 public calls executed in ONE FRESH interpreter (harness/c18_worker.py): look-ups on the radius / periodic tables with the
+# caller's own `missing=` / `units=` / `return_tuple=` / spelling / atomic number, guess_connectivity with other options, objects
+# returned earlier modified by the caller, argument objects overwritten in place and handed in again — interleaved with checked
+# guess_connectivity / measurement calls whose expected value is computed here from the arguments alone: textbook formulas on exact
+# rationals, and for the bond criterion the radii read from the data file by ast (never from the table object living in that process).
+
+_COV = None
+_TRAD = {}
+_ROOT = None
+
+
+def cov_rows():
+    """label -> decimal text, and the unit, of qcelemental/data/alvarez_2008_covalent_radii.py (ast.literal_eval; later rows overwrite)"""
+    global _COV
+    if _COV is None:
+        cov, _ = gen_radii.read_sets(common.REPO)
+        _COV = ({r[0]: r[1] for r in cov["covalent_radii"]}, cov["units"])
+    return _COV
+
+
+def table_lookup(sym: str):
+    """tabulated covalent radius of `sym` in bohr, None if there is none.  Independent of the covalentradii object: exact labels and
+    element symbols straight from the data file ('If multiple defined for element, returns largest'), the element of a nuclide / oddly
+    cased label from the periodic table (C01's territory, a parameter here), angstrom -> bohr factor from constants (C03's, a parameter)"""
+    if sym in _TRAD:
+        return _TRAD[sym]
+    import qcelemental as qcel
+    from decimal import Decimal
+
+    rows, units = cov_rows()
+    val = None
+    if sym in rows:
+        val = Decimal(rows[sym])
+    else:
+        try:
+            el = qcel.periodictable.to_E(sym)
+        except qcel.exceptions.NotAnElementError:
+            el = None
+        if el is not None:
+            alts = [Decimal(v) for k, v in rows.items() if k == el or k.split("_")[0] == el]
+            if alts:
+                val = max(alts)
+    res = None if val is None else float(qcel.constants.conversion_factor(units, "bohr")) * float(val)
+    _TRAD[sym] = res
+    return res
+
+
+def table_radius(sym: str) -> float:
+    r = table_lookup(sym)
+    return 1.8 if r is None else r
+
+
+def impl_root() -> str:
+    global _ROOT
+    if _ROOT is None:
+        import qcelemental as qcel
+        from pathlib import Path
+
+        _ROOT = str(Path(qcel.__file__).resolve().parent.parent)
+    return _ROOT
+
+
+def run_worker(steps, timeout=300):
+    """execute the steps in one fresh interpreter; returns the list of records or raises"""
+    import subprocess
+    from pathlib import Path
+
+    p = subprocess.run([sys.executable, str(Path(__file__).resolve().with_name("c18_worker.py"))], input=json.dumps({"root": impl_root(), "steps": steps}),
+                       capture_output=True, text=True, timeout=timeout, cwd="/tmp")
+    if p.returncode != 0:
+        raise RuntimeError(f"c18_worker exited {p.returncode}: {p.stderr[-1500:]}")
+    res = json.loads(p.stdout)
+    if len(res["steps"]) != len(steps):
+        raise RuntimeError("c18_worker: record count")
+    return res["steps"]
+
+
+SEQ_KINDS = {"conn": "oracle:sequence:connectivity", "meas": "oracle:sequence:measure", "molm": "oracle:sequence:measure"}
+MEAS_K = {"distance": 2, "angle": 3, "dihedral": 4}
+_SEQ_RES = {}
+_SEQ_SHRINKS = [0]
+
+
+def seq_step_lines(st):
+    if st["op"] == "conn":
+        P = fpts(unhex(st["geom"]))
+        return [conn_line([table_radius(x) for x in st["symbols"]], P, st["thr"], st["dc"])]
+    if st["op"] == "meas":
+        E = [fpts(unhex(a)) for a in st["args"]]
+        fn = st["fn"]
+        if fn == "dm":
+            return ["DM|" + pts_s(E[0]) + "|" + pts_s(E[1])]
+        if fn in MEAS_K:
+            return [{"distance": "BD|", "angle": "BA|", "dihedral": "BH|"}[fn] + "|".join(pts_s(x) for x in E)]
+        spec = "S|" + ",".join(map(str, st["spec"])) if st["single"] else "L|" + ";".join(",".join(map(str, m)) for m in st["spec"])
+        return ["M|" + pts_s(E[0]) + "|" + spec]
+    return []
+
+
+def seq_lines(t):
+    return [ln for st in t["steps"] for ln in seq_step_lines(st)]
+
+
+def seq_symbols(t):
+    return sorted({x for st in t["steps"] if st["op"] == "conn" for x in st["symbols"]})
+
+
+def seq_lines2(t):
+    L = [rad_line(seq_symbols(t))]
+    for st in t["steps"]:
+        if st["op"] == "conn":
+            L.append(conn_sym_line(st["symbols"], fpts(unhex(st["geom"])), st["thr"], st["dc"]))
+    return L
+
+
+def seq_history(steps, upto):
+    """compact, human-readable account of the calls made before step `upto`"""
+    hs = []
+    for st in steps[:upto]:
+        if st["op"] in ("cr_get", "vdw_get"):
+            hs.append("{}({!r}{})".format("covalentradii.get" if st["op"] == "cr_get" else "vdwradii.get", st["atom"], "".join(f", {k}={v!r}" for k, v in st.get("kw", {}).items())))
+        elif st["op"] == "pt":
+            hs.append(f"periodictable.{st['fn']}({st['atom']!r})")
+        elif st["op"] == "conn":
+            hs.append("guess_connectivity({}, …{}{}{})".format(st["symbols"], "" if st.get("default_thr") else f", threshold={st['thr']}", "" if st["dc"] is None else f", default_connectivity={st['dc']}",
+                                                                 f" [objects of step {st['reuse']} reused]" if st.get("reuse") is not None else ""))
+        elif st["op"] == "meas":
+            hs.append(f"{st['fn']}(…{'' if st['fn'] in ('distance', 'dm') else ', degrees=' + str(st['degrees'])})" + (f" [objects of step {st['reuse']} reused]" if st.get("reuse") is not None else ""))
+        else:
+            hs.append(st["op"] + (f"(of step {st['of']})" if "of" in st else ""))
+    return "; ".join(hs)[-900:]
+
+
+def seq_expected_meas(st, before):
+    """textbook values (radians) of a meas / molm step on the point values the call received, flat list + shape"""
+    if st["op"] == "molm":
+        E0 = fpts([[float.fromhex(c) for c in before[0][3 * i: 3 * i + 3]] for i in range(len(before[0]) // 3)])
+        ms = [st["spec"]] if st["single"] else st["spec"]
+        vals, names = [], []
+        for m in ms:
+            name = {2: "distance", 3: "angle", 4: "dihedral"}[len(m)]
+            vals.append({"distance": tb_distance, "angle": tb_angle, "dihedral": tb_dihedral}[name](*[E0[i] for i in m]))
+            names.append(name)
+        return vals, names, ([] if st["single"] else [len(ms)])
+    E = [fpts(unhex(a)) for a in st["args"]]
+    fn = st["fn"]
+    if fn == "dm":
+        return [tb_distance(p, q) for p in E[0] for q in E[1]], ["distance"] * (len(E[0]) * len(E[1])), [len(E[0]), len(E[1])]
+    if fn in MEAS_K:
+        rows = rows_of(E, MEAS_K[fn])
+        f = {"distance": tb_distance, "angle": tb_angle, "dihedral": tb_dihedral}[fn]
+        return [f(*rw) for rw in rows], [fn] * len(rows), [len(rows)]
+    ms = [st["spec"]] if st["single"] else st["spec"]
+    vals, names = [], []
+    for m in ms:
+        name = {2: "distance", 3: "angle", 4: "dihedral"}[len(m)]
+        vals.append({"distance": tb_distance, "angle": tb_angle, "dihedral": tb_dihedral}[name](*[E[0][i] for i in m]))
+        names.append(name)
+    return vals, names, ([] if st["single"] else [len(ms)])
+
+
+def seq_judge(t, recs, out: Outcome, model=None, model2=None, report=None):
+    """evaluate the worker's records of one sequence.  `report(kind, idx, detail, observed, expected)` receives oracle findings."""
+    steps = t["steps"]
+    li = 0  # cursor in the first driver's answers
+    l2 = 1  # cursor in the second driver's answers (0 is the RAD line)
+    if model2 is not None:
+        toks = model2[0].split(" ")
+        syms = seq_symbols(t)
+        if toks[0] != "RAD" or len(toks) - 1 != len(syms) or any(tok == "E" or pr(tok) != F(table_radius(x)) for x, tok in zip(syms, toks[1:])):
+            MM(out, t, "sequence: the oracle's radii (data file by ast) vs the radius model on the regenerated tables", observed=[table_radius(x) for x in syms][:20], expected=model2[0][:300])
+    for idx, (st, rec) in enumerate(zip(steps, recs)):
+        op = st["op"]
+        nl = len(seq_step_lines(st)) if model is not None else 0
+        ml = model[li: li + nl] if model is not None else None
+        li += nl
+        ml2 = None
+        if op == "conn" and model2 is not None:
+            ml2 = model2[l2]
+            l2 += 1
+        if rec.get("changed_earlier"):
+            k = rec["changed_earlier"][0]
+            src = next((x for x in steps[:idx] if x.get("id") == k), {})
+            report("oracle:sequence:result_changed", idx, f"the {'bond list' if src.get('op') == 'conn' else 'array'} returned to the caller by step id {k} ({src.get('op')} {src.get('fn', '')}) "
+                   f"no longer holds the values it was returned with after step {idx} ({op}{' of step ' + str(st['of']) if 'of' in st else ''}), which is not an edit of that object by the caller; history: {seq_history(steps, idx)}", rec["changed_earlier"], [])
+        if rec.get("watch_error"):
+            out.count("seq:watch_error")
+        if op not in SEQ_KINDS:
+            out.count("seq:step:" + op + ":" + str(rec.get("st")))
+            continue
+        kind = SEQ_KINDS[op]
+        hist = seq_history(steps, idx)
+        if rec.get("st") == "skip":
+            out.count("seq:skipped:" + str(rec.get("res"))[:30])
+            continue
+        if op == "conn":
+            declared = {"syms": list(st["symbols"]), "geom": [c for p in st["geom"] for c in p]}
+            if rec["before"] != declared:
+                out.count("seq:stale_reference")  # only after steps were removed by shrinking (or after an already reported mutation)
+                continue
+            out.count("seq:conn_checked")
+            if rec.get("reused"):
+                out.count("seq:conn_checked:objects_reused")
+            if rec["st"] != "ok":
+                report("oracle:sequence:raises", idx, f"guess_connectivity raised {rec['res']} after: {hist}", rec["res"], None)
+                continue
+            if rec["after"] != declared:
+                report("oracle:sequence:argument_mutated", idx, f"guess_connectivity changed the symbols / geometry object it was given (step {idx})", rec["after"], declared)
+            P = fpts(unhex(st["geom"]))
+            exp = brute_bonds([table_radius(x) for x in st["symbols"]], P, st["thr"])
+            pairs = [(x[0], x[1]) for x in rec["res"]]
+            out.count("seq:conn_bonds", len(exp))
+            if len(set(pairs)) != len(pairs) or set(pairs) != set(exp) or any(i >= j for i, j in pairs) or not rec.get("res_is_list"):
+                report(kind, idx, f"step {idx}: guess_connectivity({st['symbols']}, …, threshold={st['thr']}) is not exactly the pairs closer than threshold*(Ri+Rj) "
+                       f"(missing {sorted(set(exp) - set(pairs))[:5]}, extra {sorted(set(pairs) - set(exp))[:5]}) after this history in the same process: {hist}", pairs[:40], exp[:40])
+            elif (st["dc"] and any(len(x) != 3 or float.fromhex(x[2]) != st["dc"] for x in rec["res"])) or (not st["dc"] and any(len(x) != 2 for x in rec["res"])):
+                report(kind, idx, f"step {idx}: default_connectivity={st['dc']} not reflected in the result after: {hist}", repr(rec["res"])[:200], st["dc"])
+            ci = ("C " + " ".join(f"{x[0]}-{x[1]}" + (":" + rs(F(float.fromhex(x[2]))) if len(x) == 3 else "") for x in rec["res"])).strip()
+            if ml is not None and ml[0] != ci:
+                MM(out, t, f"sequence step {idx}: guess_connectivity vs model", observed=ci[:300], expected=ml[0][:300])
+            if ml2 is not None and ml2 != ci:
+                MM(out, t, f"sequence step {idx}: guess_connectivity vs the model from symbols with the regenerated table radii", observed=ci[:300], expected=ml2[:300])
+            continue
+        # measurements
+        if op == "meas":
+            declared = [[c for p in a for c in p] for a in st["args"]]
+            if rec["before"] != declared:
+                out.count("seq:stale_reference")
+                continue
+        out.count("seq:meas_checked:" + (st["fn"] if op == "meas" else "Molecule.measure"))
+        if rec.get("reused"):
+            out.count("seq:meas_checked:objects_reused")
+        if rec["st"] != "ok":
+            report("oracle:sequence:raises", idx, f"{st.get('fn', 'Molecule.measure')} raised {rec['res']} after: {hist}", rec["res"], None)
+            continue
+        if rec["after"] != rec["before"]:
+            report("oracle:sequence:argument_mutated", idx, f"{st.get('fn', 'Molecule.measure')} changed the coordinate object it was given (step {idx})", repr(rec["after"])[:200], repr(rec["before"])[:200])
+        exp, names, shape = seq_expected_meas(st, rec["before"])
+        deg = st.get("degrees", False) if op == "meas" else (True if st.get("degrees") is None else st["degrees"])
+        got = [float.fromhex(x) for x in rec["res"]]
+        what = st.get("fn", "Molecule.measure")
+        if rec["shape"] != shape or len(got) != len(exp):
+            report(kind, idx, f"step {idx}: {what} returned shape {rec['shape']}, expected {shape}, after: {hist}", rec["shape"], shape)
+            continue
+        for j, (g, e, name) in enumerate(zip(got, exp, names)):
+            fac = 180.0 / math.pi if (deg and name != "distance") else 1.0
+            bad = (not math.isfinite(g)) or ((angdiff(g / fac, e) > TOL) if name == "dihedral" else not close(g / fac, e, TOL))
+            if bad:
+                report(kind, idx, f"step {idx}: value {j} of {what}(degrees={deg}) is not the textbook {name} of the supplied points after this history in the same process: {hist}", g, e * fac)
+                break
+        if ml is not None and ml and op == "meas":
+            toks = ml[0].split()
+            fn = st["fn"]
+            mv = None
+            if fn == "dm":
+                rowsm = ml[0][3:].split(";")
+                if len(rowsm) == shape[0] and all(len(r_.split()) == shape[1] for r_ in rowsm):
+                    mv = [ev_dist(pr(x)) for r_ in rowsm for x in r_.split()]
+            elif fn in MEAS_K:
+                if toks[1:2] != ["err"] and len(toks) - 1 == len(got):
+                    mv = []
+                    for tok in toks[1:]:
+                        a = [pr(x) for x in tok.split(":")]
+                        mv.append(ev_dist(a[0]) if fn == "distance" else (ev_angle(*a) if fn == "angle" else ev_dihedral(*a)))
+            elif toks[1] != "err" and len(toks) - 2 == len(got) and (toks[1] == "one") == st["single"]:
+                mv = [ev_meas(tok)[1] for tok in toks[2:]]
+            if mv is None:
+                MM(out, t, f"sequence step {idx}: {fn} structure vs model", observed=rec["shape"], expected=ml[0][:200])
+            else:
+                for g, e, name in zip(got, mv, names):
+                    fac = 180.0 / math.pi if (deg and name != "distance") else 1.0
+                    if (angdiff(g / fac, e) > TOL) if name == "dihedral" else not close(g / fac, e, TOL):
+                        MM(out, t, f"sequence step {idx}: {fn} vs model", observed=g, expected=e * fac)
+                        break
+
+
+def seq_first_failure(t, recs):
+    """(kind, step index) of the first oracle finding of a sequence, or None — oracle only, no model"""
+    found = []
+    seq_judge(t, recs, Outcome(), report=lambda kind, idx, detail, obs, exp: found.append((kind, idx)))
+    return min(found, key=lambda x: x[1]) if found else None
+
+
+def seq_check(t, model, out: Outcome, model2=None):
+    out.evaluations += 1
+    recs = _SEQ_RES.pop(id(t), None)
+    if recs is None:
+        try:
+            recs = run_worker(t["steps"])
+        except Exception as e:  # noqa
+            recs = e
+    if isinstance(recs, Exception):
+        out.mismatches.append(Finding("mismatch", {"task": t}, observed=str(recs)[:500], detail="sequence worker failed (harness fault or the library cannot be imported in a fresh interpreter)"))
+        return
+    found = []
+    seq_judge(t, recs, out, model, model2, report=lambda kind, idx, detail, obs, exp: found.append((kind, idx, detail, obs, exp)))
+    out.count("seq:sequences")
+    out.count("seq:steps", len(t["steps"]))
+    out.nontrivial("q" + json.dumps(t["steps"])[:4000])
+    if not found:
+        out.sample({"task": "seq", "steps": len(t["steps"]), "first": seq_history(t["steps"], 6)}, limit=4)
+        return
+    found.sort(key=lambda x: x[1])
+    kind, idx, detail, obs, exp = found[0]
+    # the reported case: the sequence up to the failing call (the process is deterministic, the rest cannot matter), then ddmin over the history
+    small = {"kind": "seq", "shrunk": True, "steps": t["steps"][: idx + 1]}
+    if not t.get("shrunk") and _SEQ_SHRINKS[0] < 2 and idx >= 1:
+        _SEQ_SHRINKS[0] += 1
+        last = small["steps"][-1]
+
+        def still(prefix):
+            cand = {"kind": "seq", "steps": prefix + [last]}
+            try:
+                ff = seq_first_failure(cand, run_worker(cand["steps"]))
+            except Exception:  # noqa
+                return False
+            return ff is not None and ff[0] == kind and ff[1] == len(prefix)
+
+        try:
+            if still([]):
+                small["steps"] = [last]
+            else:
+                small["steps"] = common.shrink_list(small["steps"][:-1], still, max_steps=28) + [last]
+        except Exception:  # noqa
+            pass
+        ids = {st.get("id") for st in small["steps"]}
+        small["steps"] = [{k: v for k, v in st.items() if not (k == "reuse" and v not in ids)} for st in small["steps"]]  # objects of removed steps: built afresh anyway
+        # re-derive the message for the shrunk sequence
+        try:
+            f2 = []
+            seq_judge(small, run_worker(small["steps"]), Outcome(), report=lambda k, i, d, o, e: f2.append((k, i, d, o, e)))
+            f2 = [x for x in f2 if x[0] == kind]
+            if f2:
+                _, _, detail, obs, exp = f2[-1]
+        except Exception:  # noqa
+            pass
+    out.violations.append(Finding(kind, {"task": small}, observed=obs, expected=exp, detail=detail))
+    for k2, i2, d2, o2, e2 in found[1:4]:
+        if k2 != kind:
+            out.violations.append(Finding(k2, {"task": {"kind": "seq", "shrunk": True, "steps": t["steps"][: i2 + 1]}}, observed=o2, expected=e2, detail=d2))
+
+
 TASKS = {
     "layout": (layout_lines, layout_check),
     "geom": (geom_lines, geom_check),
     "batch": (batch_lines, batch_check),
     "measure": (measure_lines, measure_check),
     "conn": (conn_lines, conn_check),
+    "seq": (seq_lines, seq_check),
 }
 # lines for the second driver (radii from the regenerated tables); only tasks that call guess_connectivity have any
-TASKS2 = {"conn": conn_lines2, "layout": layout_lines2}
+TASKS2 = {"conn": conn_lines2, "layout": layout_lines2, "seq": seq_lines2}
 
 # --------------------------------------------------------------------------------------
 # generators
@@ -1646,6 +2028,242 @@ def gen_probe(rng):
                 "dc": rng.choice([None, None, 1.0]), "motion": mo, "perm": perm, "flat": rng.random() < 0.3}
 
 
+SEQ_QUICK, SEQ_THOROUGH, SEQ_PAR = 64, 400, 8
+SEQ_MISSING = [0.0, 0.5, 1.0, 1.8, 2.5, 4.0, 10.0]
+SEQ_UNITS = ["bohr", "angstrom", "pm", "nm"]
+SEQ_UNKNOWN = ["X", "Xx", "Zz", "Q", "Gh", "hydrogen"]
+SEQ_NUCLIDES = ["D", "T", "H2", "He4", "C13", "c13", "O18", "U238", "Cf251", "Es252"]
+SEQ_OFFSETS = [1e-6, 1e-4, 1e-2, 0.1, 0.3, 0.8]
+_SEQ_POOLS = None
+
+
+def seq_pools():
+    """(special, tabulated): labels without / with a tabulated covalent radius, in several spellings"""
+    global _SEQ_POOLS
+    if _SEQ_POOLS is None:
+        els = elements()
+        bare = [e for e in els if table_lookup(e) is None]
+        special = bare + [e.lower() for e in bare] + [e.upper() for e in bare] + SEQ_UNKNOWN + [x for x in SEQ_NUCLIDES if table_lookup(x) is None]
+        have = [e for e in els if table_lookup(e) is not None]
+        tab = have + [e.lower() for e in have[:40]] + [e.upper() for e in have[:40]] + PROBE_LABELS * 3 + ["H", "C", "N", "O", "Mn", "Fe", "Co"] * 6 + [x for x in SEQ_NUCLIDES if table_lookup(x) is not None] * 2
+        _SEQ_POOLS = (special, tab)
+    return _SEQ_POOLS
+
+
+def seq_spelling(rng, s):
+    """another way a caller may name the same species in a table look-up"""
+    import qcelemental as qcel
+
+    r = rng.random()
+    if r < 0.55:
+        return s
+    if r < 0.7:
+        return s.lower()
+    if r < 0.8:
+        return s.upper()
+    try:
+        el = qcel.periodictable.to_E(s)
+        return int(qcel.periodictable.to_Z(el)) if r < 0.9 else el
+    except Exception:  # noqa
+        return s
+
+
+def seq_chain(rng, syms, thr, tries=40):
+    """points for `syms`: consecutive atoms SEQ_OFFSETS inside / outside their cutoff (table radii), every pair clear of its cutoff by 2e-9, inside the box"""
+    radii = [table_radius(x) for x in syms]
+    n = len(syms)
+    for _ in range(tries):
+        pts = [[rng.uniform(-2, 2) for _ in range(3)]]
+        for k in range(1, n):
+            c = (radii[k - 1] + radii[k]) * thr
+            off = rng.choice(SEQ_OFFSETS)
+            d = c - off if rng.random() < 0.5 else c + off
+            if d < 0.2:
+                d = c + off
+            u = [rng.gauss(0, 1) for _ in range(3)]
+            nrm = math.sqrt(sum(x * x for x in u)) or 1.0
+            pts.append([pts[-1][i] + d * u[i] / nrm for i in range(3)])
+        if any(abs(x) > 10 for p in pts for x in p):
+            continue
+        P = fpts(pts)
+        if any(dot(sub(P[i], P[j]), sub(P[i], P[j])) < Fr(1, 100) for i in range(n) for j in range(i)):
+            continue
+        if conn_safe(radii, P, thr):
+            return pts
+    return None
+
+
+def seq_thr(rng):
+    return rng.choice(THRESHOLDS) if rng.random() < 0.8 else round(rng.uniform(0.5, 2.0), rng.choice([2, 6]))
+
+
+def seq_meas_points(rng, fn):
+    """argument point lists (floats) + forms for a checked measurement inside the quantifier"""
+    if fn == "dm":
+        na, nb = rng.randint(1, 4), rng.randint(1, 4)
+        pts = gen_points(rng, rng.choice(STYLES), na + nb)
+        return [pts[:na], pts[na:]], [rng.choice(["2d", "F"]) for _ in range(2)]  # distance_matrix is documented for ndarrays only
+    if fn == "measure":
+        n = rng.choice([4, 5, 6])
+        while True:
+            pts = gen_points(rng, rng.choice(STYLES), n)
+            E = fpts(pts)
+            if all(sin2(sub(E[i], E[j]), sub(E[k], E[j])) >= Fr(1, 10000) for i in range(n) for j in range(n) for k in range(n) if len({i, j, k}) == 3):
+                return [pts], [rng.choice(["2d", "list", "F"])]
+    k = MEAS_K[fn]
+    n = rng.choice([1, 1, 2, 3])
+    rows = []
+    while len(rows) < n:
+        pts = gen_points(rng, rng.choice(STYLES), k)
+        if k < 3 or general_position(fpts(pts)):
+            rows.append(pts)
+    args = [[rows[i][c] for i in range(n)] for c in range(k)]
+    forms = [(rng.choice(["row", "row_list", "2d"]) if n == 1 else rng.choice(["2d", "2d", "list"])) for _ in range(k)]
+    return args, forms
+
+
+def gen_seq(rng):
+    special, tab = seq_pools()
+    cast_s = rng.sample(special, rng.randint(2, 4))
+    cast_t = rng.sample(tab, rng.randint(3, 5))
+    cast = cast_s + cast_t
+    steps = []
+    vals = {}  # id of a conn step -> [symbols, geom(hex), sym_as, geom_as] currently held by ITS argument objects (shared between steps that reuse them)
+    conn_ids, meas_ids, mol_ids = [], [], []
+    L = rng.randint(30, 60)
+
+    def nid():
+        return len(steps)
+
+    def conn_opts():
+        dt = rng.random() < 0.15
+        return (1.2 if dt else seq_thr(rng)), dt, rng.choice([None, None, None, 1.0, 1.5, 0.0, 2])
+
+    def add_conn(syms, geomhex, thr, dt, dc, sym_as=None, geom_as=None, reuse=None):
+        st = {"op": "conn", "id": nid(), "symbols": list(syms), "geom": geomhex, "thr": thr, "default_thr": dt, "dc": dc}
+        if reuse is None:
+            st["sym_as"] = sym_as or rng.choice(["list", "list", "tuple", "array"])
+            st["geom_as"] = geom_as or rng.choice(["2d", "2d", "flat", "list", "F"])
+            vals[st["id"]] = [list(syms), geomhex, st["sym_as"], st["geom_as"]]
+        else:
+            st["reuse"] = reuse
+            vals[st["id"]] = vals[reuse]  # the same objects
+        conn_ids.append(st["id"])
+        steps.append(st)
+
+    def new_molecule(syms=None):
+        for _ in range(20):
+            thr, dt, dc = conn_opts()
+            if syms is None:
+                n = rng.choice([2, 2, 3, 3, 4, 5])
+                ss = [rng.choice(cast_s) if rng.random() < 0.45 else rng.choice(cast) for _ in range(n)]
+            else:
+                ss = syms
+            pts = seq_chain(rng, ss, thr)
+            if pts is not None:
+                return ss, hexpts(pts), thr, dt, dc
+        return None
+
+    while len(steps) < L:
+        r = rng.random()
+        if r < 0.30:
+            kw = {}
+            if rng.random() < 0.75:
+                kw["missing"] = rng.choice(SEQ_MISSING)
+            if rng.random() < 0.4:
+                kw["units"] = rng.choice(SEQ_UNITS)
+            if rng.random() < 0.25:
+                kw["return_tuple"] = rng.random() < 0.6
+            steps.append({"op": "cr_get", "id": nid(), "atom": seq_spelling(rng, rng.choice(cast_s) if rng.random() < 0.6 else rng.choice(cast)), "kw": kw})
+        elif r < 0.34:
+            kw = {}
+            if rng.random() < 0.7:
+                kw["missing"] = rng.choice(SEQ_MISSING)
+            if rng.random() < 0.4:
+                kw["units"] = rng.choice(SEQ_UNITS)
+            steps.append({"op": "vdw_get", "id": nid(), "atom": seq_spelling(rng, rng.choice(cast)), "kw": kw})
+        elif r < 0.38:
+            steps.append({"op": "pt", "id": nid(), "fn": rng.choice(["to_E", "to_Z", "to_mass", "to_A", "to_name"]), "atom": seq_spelling(rng, rng.choice(cast))})
+        elif r < 0.68:
+            if conn_ids and rng.random() < 0.3:
+                # the same molecule again with other options (fresh objects, or the very objects of the earlier call)
+                k = rng.choice(conn_ids)
+                syms, geomhex = vals[k][0], vals[k][1]
+                for _ in range(6):
+                    thr, dt, dc = conn_opts()
+                    if conn_safe([table_radius(x) for x in syms], fpts(unhex(geomhex)), thr):
+                        add_conn(syms, geomhex, thr, dt, dc, reuse=k if rng.random() < 0.5 else None)
+                        break
+            else:
+                m = new_molecule()
+                if m is not None:
+                    add_conn(*m)
+        elif r < 0.74:
+            # the caller edits something the library returned earlier, then asks the same question again
+            pool = conn_ids + meas_ids
+            if pool:
+                k = rng.choice(pool)
+                steps.append({"op": "mut_result", "id": nid(), "of": k, "how": rng.choice(["clear", "append", "reverse", "pop", "dup"])})
+                src = steps[k]
+                if src["op"] == "conn":
+                    if [src["symbols"], src["geom"]] == vals[k][:2]:
+                        add_conn(src["symbols"], src["geom"], src["thr"], src["default_thr"], src["dc"], sym_as=src.get("sym_as"), geom_as=src.get("geom_as"))
+                elif src.get("reuse") is None and not src.get("dirty"):
+                    st = dict(src, id=nid())
+                    meas_ids.append(st["id"])
+                    steps.append(st)
+        elif r < 0.82:
+            # the caller overwrites its own argument objects in place and hands the same objects in again
+            ks = [k for k in conn_ids if vals[k][3] in ("2d", "flat", "list", "F")]
+            if ks:
+                k = rng.choice(ks)
+                syms = list(vals[k][0])
+                change_syms = vals[k][2] in ("list", "array") and rng.random() < 0.5
+                if change_syms:
+                    syms = [rng.choice(cast) if rng.random() < 0.5 else x for x in syms]
+                    rng.shuffle(syms)
+                m = new_molecule(syms)
+                if m is not None:
+                    if change_syms:
+                        steps.append({"op": "mut_syms", "id": nid(), "of": k, "symbols": list(syms)})
+                    steps.append({"op": "mut_geom", "id": nid(), "of": k, "geom": m[1]})
+                    vals[k][0], vals[k][1] = list(syms), m[1]
+                    add_conn(syms, m[1], m[2], m[3], m[4], reuse=k)
+        elif r < 0.95:
+            ks = [k for k in meas_ids if steps[k]["fn"] in ("angle", "dihedral", "measure") and not steps[k].get("dirty")]
+            if ks and rng.random() < 0.35:
+                # same argument objects, the other degrees flag
+                k = rng.choice(ks)
+                st = dict(steps[k], id=nid(), degrees=not steps[k]["degrees"], reuse=k)
+                meas_ids.append(st["id"])
+                steps.append(st)
+            else:
+                fn = rng.choice(["distance", "angle", "dihedral", "dihedral", "dm", "measure"])
+                args, forms = seq_meas_points(rng, fn)
+                st = {"op": "meas", "id": nid(), "fn": fn, "args": [hexpts(a) for a in args], "as": forms, "degrees": rng.random() < 0.5}
+                if fn == "measure":
+                    n = len(args[0])
+                    st["single"] = rng.random() < 0.4
+                    ms = [rng.sample(range(n), rng.choice([2, 3, 4])) for _ in range(1 if st["single"] else rng.randint(1, 4))]
+                    st["spec"] = ms[0] if st["single"] else ms
+                meas_ids.append(st["id"])
+                steps.append(st)
+        else:
+            if mol_ids and rng.random() < 0.5:
+                k = rng.choice(mol_ids)
+                st = dict(steps[k], id=nid(), degrees=rng.choice([None, True, False]), reuse=k)
+            else:
+                args, _ = seq_meas_points(rng, "measure")
+                n = len(args[0])
+                single = rng.random() < 0.4
+                ms = [rng.sample(range(n), rng.choice([2, 3, 4])) for _ in range(1 if single else rng.randint(1, 3))]
+                st = {"op": "molm", "id": nid(), "symbols": [rng.choice(elements()[:36]) for _ in range(n)], "geom": hexpts(args[0]), "single": single,
+                      "spec": ms[0] if single else ms, "degrees": rng.choice([None, True, False])}
+            mol_ids.append(st["id"])
+            steps.append(st)
+    return {"kind": "seq", "steps": steps}
+
+
 def fixed_tasks():
     """hand-written regression inputs (always run first)"""
     T = []
@@ -1688,6 +2306,9 @@ def gen_tasks(ctx: Ctx):
     # cutoff-edge probes (generated after everything else, same reason)
     for _ in range(ctx.scale(1500, 7500)):
         T.append(gen_probe(rng))
+    # call sequences, each in its own fresh interpreter (generated after everything else, same reason)
+    for _ in range(ctx.scale(SEQ_QUICK, SEQ_THOROUGH)):
+        T.append(gen_seq(rng))
     return T
 
 
@@ -1704,6 +2325,14 @@ def evaluate(ctx: Ctx, tasks, out: Outcome):
         ls2 = TASKS2[t["kind"]](t) if t["kind"] in TASKS2 else []
         spans2.append((len(all_lines2), len(ls2)))
         all_lines2 += ls2
+    # sequences run in fresh interpreters, SEQ_PAR at a time, while the drivers work
+    seqs = [t for t in tasks if t["kind"] == "seq"]
+    pool = futs = None
+    if len(seqs) > 1:
+        from concurrent.futures import ThreadPoolExecutor
+
+        pool = ThreadPoolExecutor(max_workers=SEQ_PAR)
+        futs = [(t, pool.submit(run_worker, t["steps"])) for t in seqs]
     model = model2 = None
     if ctx.model_available:
         model = ctx.run_model(DRIVER, all_lines)
@@ -1714,6 +2343,13 @@ def evaluate(ctx: Ctx, tasks, out: Outcome):
         nbad = sum(1 for m in model2 if m == "bad-op")
         if nbad:
             out.mismatches.append(Finding("mismatch", {"task": None}, observed=f"{nbad} bad-op lines", detail="radii driver rejected generated lines"))
+    if futs:
+        for t, f in futs:
+            try:
+                _SEQ_RES[id(t)] = f.result()
+            except Exception as e:  # noqa
+                _SEQ_RES[id(t)] = e
+        pool.shutdown()
     for t, (a, k), (a2, k2) in zip(tasks, spans, spans2):
         ml = model[a : a + k] if model is not None else None
         if ml is not None and any(m == "bad-op" for m in ml):
@@ -1735,6 +2371,8 @@ def run(ctx: Ctx) -> Outcome:
     evaluate(ctx, tasks, out)
     out.exhaustive = False
     out.notes.append("all streams sampled from VERIF_SEED; 7 hand-written regression tasks run first")
+    out.notes.append("seq stream: one fresh interpreter per sequence (harness/c18_worker.py); distribution keys seq:sequences, seq:steps, seq:step:<history op>:<ok|err|skip>, seq:conn_checked[:objects_reused], "
+                     "seq:meas_checked:<fn>, seq:conn_bonds; findings oracle:sequence:connectivity / :measure / :argument_mutated / :result_changed / :raises carry the shrunk sequence (replayed in a fresh interpreter)")
     out.notes.append("layout stream: distribution keys layout:<fn>:<mode>, layout:carrier:<memory layout>[:readonly], layout:arguments_share_memory, "
                      "layout:<fn>:distinct_equal_shape_overlapping_views (two different, equally shaped, memory-overlapping views — e.g. distance_matrix(P[:-1], P[1:]))")
     out.notes.append("transcendental step: the closed forms proved in Props/C18Real.lean (distR = sqrt d2; angleR_eq_args; dihedralR_eq_args) evaluated in Python (libm) on the model's exact rational arguments; tolerance 1e-9 (1e-6 on exactly collinear triples)")
